@@ -112,11 +112,23 @@ CLAIMS.update({
 NU_NOTE = "Trusted: Lean kernel, axioms propext/Classical.choice/Quot.sound, harness (gates on the cfg-gated yield points) + driver. Modelled, not verified: the control flow of tick/tick_inner/restart/Worker::run (tied by replaying seeded histories on a real Nucleo, every observable compared); a background run is one model transition parameterised by its observations; parking_lot's lock, Arc counts and rayon are abstracted (lock outcomes and run effects are oracle inputs of the theorems); scores are inputs (C01-C05, C15)."
 CLAIMS.update({
     "C06": dict(
-        technique="Lean 4 theorems (snapshot guard, repaired in-flight removal, ordering) over the protocol model + replay of seeded histories with paused writers and per-snapshot oracle",
+        technique="Lean 4 theorems (run contract of rescoring and empty-pattern runs, snapshot guard, in-flight removal, strict total order of the comparison) over the protocol model + replay of seeded histories with paused writers and per-snapshot oracle",
         text="Partial proof. Theorems: the snapshot is replaced only by the result of a finished, un-cancelled run while the matcher is Fresh, and always together with that run's "
              "stream handle and processed-item count; the in-flight indices are processed in ascending order whatever order the pool threads report them in (repair of F11, with the "
-             "[5,3] regression decided in the model); placeholder entries sort behind real matches of equal score. The run's contract (matches = exactly the matching processed "
-             "items, once each, scored, ordered) is evaluated on every real snapshot of every generated history (writers paused between reservation and publication, 1-3 pool "
+             "[5,3] regression decided in the model); placeholder entries sort behind real matches of equal score. The run contract is a theorem for the two kinds of run that rebuild the list from the "
+             "worker's bookkeeping alone (companion file C06_RunContract): after a completed full-rescoring run - from ANY earlier state of the match list (left by completed, timed-out "
+             "or cancelled runs) whose bookkeeping invariant BK holds, first run after restart included - the match list is a sorted permutation of exactly the current pattern's "
+             "matches among the accounted items (earlier processed + newly published, in-flight ones excluded and recorded), BK holds again and item_count is the number of "
+             "accounted items (C06_rescore_run_contract; the offset-based removal loop of remove_in_flight_matches is characterised, removeInFlightGo_spec; the worker's comparison is "
+             "a strict total order and the sort-and-truncate end keeps exactly the non-placeholder entries); after a completed run with the empty pattern the list is every accounted "
+             "item in insertion order (C06_trivial_run_contract). Environment hypotheses are explicit (RunEnv: slots only go from unpublished to published, observations are the "
+             "stream's content, processed items stay readable, counter monotone and below u32::MAX, the cancel flag not seen). The incremental paths are theorems under the hypothesis that the list was right for the items accounted so far: unchanged pattern "
+             "(C06_unchanged_run_contract: in-flight items that completed and newly published items are scored and merged) and appended edit (C06_update_run_contract: the existing "
+             "entries are rescored under a pattern that can only match what the old one matched); with nothing in flight a right list is the from-scratch result (C06_quiescent). "
+             "Not a theorem: the state left by a CANCELLED run on the incremental paths (a following appended edit is covered by the oracle only; a following rescoring or "
+             "empty-pattern run is covered by the theorems above, which assume nothing about the list). "
+             "The whole contract (matches = exactly the matching processed "
+             "items, once each, scored, ordered) is also evaluated on every real snapshot of every generated history (writers paused between reservation and publication, 1-3 pool "
              "threads, 1-2 columns), and model = implementation on all of them.",
         note=NU_NOTE),
     "C07": dict(
